@@ -501,7 +501,14 @@ class Disc2D:
         names = ["d%d" % i for i in range(len(self.shapes))]
         self.pdata = [A2(E, nm, "cell", vec=(sh == 2)) for nm, sh in zip(names, self.shapes)]
         bct = bctypes or {t: "per" for t in ("left", "right", "top", "bottom")}
-        bclist = {t: {"type": v, "tag": t} for t, v in bct.items()}
+        # the user's dictionary lists the boundaries in ITS order: any order is a valid input, so the analysis takes one in which
+        # no tag stands where the mesh's own list of tags has it (a table built in mesh order and read by position in the
+        # dictionary's order pairs every boundary with another one's faces)
+        mtags = self.mesh.attrs.get("_bctags")
+        order = list(bct)
+        if isinstance(mtags, (list, tuple)) and sorted(map(str, mtags)) == sorted(order) and len(order) > 1:
+            order = [str(t) for t in mtags][1:] + [str(mtags[0])]
+        bclist = {t: {"type": bct[t], "tag": t} for t in order}
 
         def zero_datalist(newdim=None):
             nd = it.lift(newdim)
@@ -524,6 +531,19 @@ class Disc2D:
         self.model = ObjStub("model", {"shape": list(self.shapes)})
         self.so = SelfObj(self.fvm_cls, {"mesh": self.mesh, "neq": len(self.shapes), "nelem": E.nx * E.ny, "field": self.field,
                                          "pdata": self.pdata, "qdata": self.pdata, self._ctor_attr("bclist", "_bclist"): bclist, "model": self.model})
+        # whatever else the constructor derives from its arguments (tables computed once from the mesh and the boundary list)
+        ctor = proj.resolve(self.fvm_cls, "__init__")
+        if ctor is not None and ctor.cls is self.fvm_cls and len(ctor.params) >= 5:
+            env = dict(zip(ctor.params, [self.so, self.model, self.mesh, None, bclist] + [None] * (len(ctor.params) - 5)))
+            for st in ctor.node.body:
+                if isinstance(st, ast.Expr) and isinstance(st.value, ast.Call) and isinstance(st.value.func, ast.Attribute) and st.value.func.attr == "__init__":
+                    continue
+                if not any(isinstance(n, ast.Attribute) and isinstance(n.ctx, ast.Store) and isinstance(n.value, ast.Name) and n.value.id == ctor.params[0] and n.attr not in self.so.attrs for n in ast.walk(st)):
+                    continue
+                try:
+                    it.exec_block([st], env, ctor, 0)
+                except AnalysisError:
+                    pass            # the attribute stays unknown: a later read reports it
 
     def fvm(self, name, *args):
         f = self.proj.resolve(self.fvm_cls, name)
